@@ -74,6 +74,7 @@ def run(ck):
     ck.lean_props("C01", THEOREMS)
     tmpdir = tempfile.mkdtemp(prefix="verif_c01_")
     lines, meta = [], []
+    KEPT, KEPT_BYTES = [], []
     try:
         per_pair = 3 if ck.tier == "quick" else 60
         for (minor, fmt) in fio.PAIRS:
@@ -127,6 +128,29 @@ def run(ck):
                 except Exception as e:
                     ck.fail(f"reading the written file raised {type(e).__name__}: {e}", inp)
                     continue
+                # ---- objects read earlier are still alive: reading (and writing) another file must not have touched them
+                if KEPT:
+                    obj_, snap_, inp_ = KEPT[-1]
+                    if fio.snapshot(obj_) != snap_:
+                        now_ = fio.snapshot(obj_)
+                        which = [i for i, (a_, b_) in enumerate(zip(now_, snap_)) if a_ != b_]
+                        ck.fail(f"an object read back earlier (version 1.{inp_['minor']}, format {inp_['fmt']}, {inp_['n']} points) changed while another file was written and read: "
+                                f"snapshot components {which} differ (7 = header scales, 8 = header offsets, 1/2 = record scales/offsets)", dict(inp, earlier=inp_))
+                    try:
+                        again_ = write_to(obj_, "bytesio", tmpdir)
+                        if again_ != KEPT_BYTES[-1]:
+                            ck.fail("an object read back earlier no longer writes the file it was read from, after another file was written and read", dict(inp, earlier=inp_))
+                    except Exception as e:
+                        ck.fail(f"writing an object read back earlier raised {type(e).__name__}: {e}", dict(inp, earlier=inp_))
+                    KEPT.clear()
+                    KEPT_BYTES.clear()
+                if kind == "bytesio":
+                    try:
+                        KEPT_BYTES.append(write_to(back, "bytesio", tmpdir))
+                        KEPT.append((back, fio.snapshot(back), inp))
+                    except Exception:
+                        KEPT.clear()
+                        KEPT_BYTES.clear()
                 # ---- direct oracle
                 if back.points.array.tobytes() != raw:
                     ck.fail("point records are not byte-identical after write + read", inp)
@@ -258,6 +282,30 @@ def run(ck):
                     break
     finally:
         shutil.rmtree(tmpdir, ignore_errors=True)
+    # ---- a compressed write (laspy's glue on the backend double) does not modify the object either
+    try:
+        from laspy import LazBackend
+        for ci in range(6 if ck.tier == "quick" else 60):
+            minor, fmt = fio.PAIRS[(4 * ci + 1) % len(fio.PAIRS)]
+            las = fio.make_las(ck.rng, minor, fmt, [0, 3, 9][ci % 3], fio.rand_extra_params(ck.rng) if ci % 2 else [], vlrs=fio.rand_vlrs(ck.rng, False),
+                               evlrs=fio.rand_vlrs(ck.rng, True) if minor >= 4 else None)
+            inp = {"kind": "compressed_write_pure", "minor": minor, "fmt": fmt, "n": len(las.points)}
+            ck.case(("c01z", minor, fmt, las.points.array.tobytes()), nontrivial=True)
+            ck.count("compressed_write_purity")
+            before = fio.snapshot(las)
+            nv = len(las.vlrs)
+            for how in ("LasData.write", "LasData.write again", "open+write_points"):
+                bz = io.BytesIO()
+                if how == "open+write_points":
+                    with laspy.open(bz, mode="w", header=las.header, do_compress=True, laz_backend=LazBackend.Lazrs, closefd=False) as w:
+                        w.write_points(las.points)
+                else:
+                    las.write(bz, do_compress=True, laz_backend=LazBackend.Lazrs)
+                if fio.snapshot(las) != before or len(las.vlrs) != nv:
+                    ck.fail(f"a compressed write ({how}) modified the in-memory object it was given (VLRs now {[type(v).__name__ for v in las.vlrs]})", dict(inp, how=how))
+                    break
+    except ImportError:
+        ck.count("compressed_write_purity_skipped_no_backend")
     out = ck.driver(lines)
     bad = None
     if out is None or len(out) != len(lines):
